@@ -73,7 +73,8 @@ type Resp struct {
 	Ans    []int `json:"ans"`   // generation stamps in the answer section
 	Extra  []int `json:"extra"` // generation stamps in authority and additional
 	Hit    int   `json:"hit"`   // 1 = cache hit counted while this thread ran, 0 = not
-	Secs   [][]RR `json:"secs"` // question, answer, authority, additional
+	Secs   [][]RR `json:"secs"` // question, answer, authority, additional (without OPT)
+	Opt    string `json:"opt"`  // the OPT record of the response ("" if none)
 	SrvErr string `json:"srverr,omitempty"`
 }
 
@@ -203,6 +204,10 @@ func Observe(m *dns.Msg, rcode int, err error) Resp {
 	r.Secs = [][]RR{q, {}, {}, {}}
 	for i, sec := range [][]dns.RR{m.Answer, m.Ns, m.Extra} {
 		for _, rr := range sec {
+			if _, isOpt := rr.(*dns.OPT); isOpt {
+				r.Opt += rr.String()
+				continue
+			}
 			r.Secs[i+1] = append(r.Secs[i+1], rrObs(rr))
 			if s, ok := stampOf(rr); ok {
 				if i == 0 {
